@@ -741,20 +741,23 @@ func (pm *Portmapper) handleRpcbDump() []byte {
 
 	var buf bytes.Buffer
 	for _, m := range mappings {
+		// netid; a mapping for any other protocol has none and is not listed
+		var netid string
+		switch m.Protocol {
+		case IPPROTO_TCP:
+			netid = "tcp"
+		case IPPROTO_UDP:
+			netid = "udp"
+		default:
+			continue
+		}
+
 		// Write "more entries" flag (1 = true)
 		binary.Write(&buf, binary.BigEndian, uint32(1))
 
 		// Write rpcb structure
 		binary.Write(&buf, binary.BigEndian, m.Program)
 		binary.Write(&buf, binary.BigEndian, m.Version)
-
-		// netid
-		var netid string
-		if m.Protocol == IPPROTO_TCP {
-			netid = "tcp"
-		} else {
-			netid = "udp"
-		}
 		xdrEncodeString(&buf, netid)
 
 		// uaddr - universal address format
